@@ -143,7 +143,16 @@ def _error_evidence(pid, tier, seed, root, msg, evpath, t0):
         pass
 
 
+def _watchdog(signum, frame):
+    P("ANALYSIS-ERROR property=%s analysis did not finish within the time budget" % (sys.argv[1] if len(sys.argv) > 1 else "?"))
+    sys.stdout.flush()
+    os._exit(2)
+
+
 if __name__ == "__main__":
+    import signal
+    signal.signal(signal.SIGALRM, _watchdog)
+    signal.alarm(int(os.environ.get("VERIF_BUDGET_S", "600")))
     rc = main(sys.argv[1:])
     sys.stdout.flush()
     os._exit(rc)
